@@ -146,9 +146,11 @@ def run_cross(chk: Check, owner: str):
 
 def explore(chk: Check, owner: str, cross=False):
     quick = chk.tier == "quick"
-    devs = {"C08": [("lasttick", "P_C08"), ("share", "P_C08")]}.get(owner, [])
+    devs = {"C08": [("lasttick", "P_C08"), ("share", "P_C08"), ("latewrite", "P_C08")]}.get(owner, [])
     for dev, prop in devs:
-        r = tlc.run(SPEC, MC / f"MC_UniLp_dev_{dev}.cfg", chk.tmp, workers=8, timeout=600)
+        # latewrite needs three bars (a write after the update of bar 1 shows in the fee of bar 2): found by simulation, not by BFS
+        args = ("-simulate", "num=300000", "-depth", "7", "-seed", "1") if dev == "latewrite" else ()
+        r = tlc.run(SPEC, MC / f"MC_UniLp_dev_{dev}.cfg", chk.tmp, workers=8, timeout=600, args=args)
         chk.extra.setdefault("dev_switch_detected", {})[dev] = prop in r.violated
         if prop not in r.violated:
             raise RuntimeError(f"vacuous: dev switch {dev} does not violate {prop}")
